@@ -857,7 +857,9 @@ func r11_5(c *Ctx, t *tables) {
 					}
 				}
 				k := key("index")
-				if why := guardedIndex(f, base, idx, b); why != "" {
+				if why := indexTypeFitsArray(base, idx); why != "" {
+					c.ok(k, in.Pos(), "%s", why)
+				} else if why := guardedIndex(f, base, idx, b); why != "" {
 					c.ok(k, in.Pos(), "%s", why)
 				} else if why := guardedIndexMore(f, base, idx, b); why != "" {
 					c.ok(k, in.Pos(), "%s", why)
@@ -943,6 +945,34 @@ func guardedSlice(f *ssa.Function, x *ssa.Slice, at *ssa.BasicBlock) string {
 	isLenOf := func(v ssa.Value, base ssa.Value) bool {
 		lc, ok := isBuiltinCall(v, "len")
 		return ok && sameValue(lc.Call.Args[0], base)
+	}
+	// s[i+k:] (k = 0 or 1) under a dominating i < len(s), i >= 0 by a non-negative start and +1 steps
+	if x.Low != nil && x.High == nil && x.Max == nil {
+		base, k := x.Low, int64(0)
+		if bo, ok := x.Low.(*ssa.BinOp); ok && bo.Op == token.ADD {
+			if kk, ok := constInt64(bo.Y); ok && (kk == 0 || kk == 1) {
+				base, k = bo.X, kk
+			}
+		}
+		if nonNegativeCounter(base) {
+			for _, ob := range f.Blocks {
+				iff := blockIf(ob)
+				if iff == nil {
+					continue
+				}
+				c2, ok := iff.Cond.(*ssa.BinOp)
+				if !ok {
+					continue
+				}
+				switch {
+				case c2.Op == token.LSS && c2.X == base && isLenOf(c2.Y, x.X) && condEdgeDominates(ob, true, at),
+					c2.Op == token.GTR && c2.Y == base && isLenOf(c2.X, x.X) && condEdgeDominates(ob, true, at),
+					c2.Op == token.GEQ && c2.X == base && isLenOf(c2.Y, x.X) && condEdgeDominates(ob, false, at),
+					c2.Op == token.LEQ && c2.Y == base && isLenOf(c2.X, x.X) && condEdgeDominates(ob, false, at):
+					return fmt.Sprintf("s[i+%d:] under a dominating i < len(s) with i a counter that starts non-negative and only grows", k)
+				}
+			}
+		}
 	}
 	if x.Low == nil && x.High != nil {
 		if k, ok := constInt64(x.High); ok && k == 0 {
@@ -1258,7 +1288,6 @@ func phiStartsAt(p *ssa.Phi, min int64) bool {
 	return true
 }
 
-
 // nonNilMapValue: v is a freshly made map, or a clone of a package-level map that is itself made by its initialiser
 // (maps.Clone preserves nil-ness, so the source must be known non-nil).
 func nonNilMapValue(v ssa.Value) bool {
@@ -1325,4 +1354,94 @@ func returnsMadeMap(f *ssa.Function, depth int) bool {
 		}
 	})
 	return ok && any
+}
+
+// indexTypeFitsArray: an array (or pointer to array) indexed by a value whose type cannot exceed its length —
+// [256]T by a byte, [65536]T by a uint16 — or by an in-range constant.
+func indexTypeFitsArray(base, idx ssa.Value) string {
+	arr, ok := deref(base.Type()).Underlying().(*types.Array)
+	if !ok {
+		return ""
+	}
+	if k, ok := constInt64(idx); ok {
+		if k >= 0 && k < arr.Len() {
+			return fmt.Sprintf("constant index %d into an array of %d", k, arr.Len())
+		}
+		return ""
+	}
+	v := idx
+	for {
+		cv, ok := v.(*ssa.Convert)
+		if !ok {
+			break
+		}
+		// widening conversions of an unsigned value keep its range
+		src, ok := cv.X.Type().Underlying().(*types.Basic)
+		if !ok || src.Info()&types.IsUnsigned == 0 {
+			break
+		}
+		dst, ok := cv.Type().Underlying().(*types.Basic)
+		if !ok || dst.Info()&types.IsInteger == 0 || basicBits(dst) <= basicBits(src) {
+			break
+		}
+		v = cv.X
+	}
+	b, ok := v.Type().Underlying().(*types.Basic)
+	if !ok || b.Info()&types.IsUnsigned == 0 {
+		return ""
+	}
+	bits := basicBits(b)
+	if bits == 0 || bits > 16 {
+		return ""
+	}
+	if int64(1)<<bits <= arr.Len() {
+		return fmt.Sprintf("index of type %s (< %d) into an array of %d", b.Name(), int64(1)<<bits, arr.Len())
+	}
+	return ""
+}
+
+func basicBits(b *types.Basic) int {
+	switch b.Kind() {
+	case types.Uint8, types.Int8:
+		return 8
+	case types.Uint16, types.Int16:
+		return 16
+	case types.Uint32, types.Int32:
+		return 32
+	case types.Uint64, types.Int64, types.Int, types.Uint, types.Uintptr:
+		return 64
+	}
+	return 0
+}
+
+// nonNegativeCounter: v is a loop variable built from non-negative constants and +constant steps (phi of such values).
+func nonNegativeCounter(v ssa.Value) bool {
+	seen := map[ssa.Value]bool{}
+	var walk func(v ssa.Value) bool
+	walk = func(v ssa.Value) bool {
+		if seen[v] {
+			return true
+		}
+		seen[v] = true
+		switch x := v.(type) {
+		case *ssa.Const:
+			k, ok := constInt64(x)
+			return ok && k >= 0
+		case *ssa.Phi:
+			for _, e := range x.Edges {
+				if !walk(e) {
+					return false
+				}
+			}
+			return true
+		case *ssa.BinOp:
+			if x.Op == token.ADD {
+				if k, ok := constInt64(x.Y); ok && k >= 0 {
+					return walk(x.X)
+				}
+			}
+		}
+		return false
+	}
+	return walk(v)
 }
